@@ -185,8 +185,8 @@ class C02(Spec):
 class C03(Spec):
     functions = CORE_FUNCS
     def queries(self, tier, bld):
-        return [core_q('C03.core.L12', ['PROP_C03'], L=12),
-                core_q('C03.core.L16', ['PROP_C03'], L=16, budget=1800, tiers=('thorough',)),
+        return [core_q('C03.core.L12', ['PROP_C03', 'PROP_C02_SETKEY'], L=12),
+                core_q('C03.core.L16', ['PROP_C03', 'PROP_C02_SETKEY'], L=16, budget=1800, tiers=('thorough',)),
                 builder_q('C03.builder', ['PROP_C03'])]
 
 
